@@ -1,6 +1,7 @@
 package props
 
 import (
+	"bytes"
 	"context"
 	"errors"
 	"fmt"
@@ -9,6 +10,7 @@ import (
 	"time"
 
 	"github.com/indexsupply/shovel/dig"
+	"github.com/indexsupply/shovel/eth"
 	"github.com/indexsupply/shovel/jrpc2"
 	"github.com/indexsupply/shovel/shovel/config"
 	"github.com/indexsupply/shovel/wpg"
@@ -280,6 +282,33 @@ func runC16(e *core.Env) error {
 						verdict = fmt.Sprintf("re-insert of the same blocks by %s did not collide", ig.Name)
 					} else if !errors.As(err2, &pe) || pe.Code != "23505" {
 						verdict = fmt.Sprintf("re-insert by %s failed with %v, want a unique violation", ig.Name, err2)
+					}
+				}
+				if verdict == "ok" && len(ig.Event.Inputs) > 0 {
+					// a log of the declared event (right signature, right topic count) that carries NO data — any contract
+					// can emit one: either it is refused, or its rows too collide on a re-insert (no NULL in the key)
+					sig := d.Event.SignatureHash()
+					var hostile []eth.Block
+					for bi := range blocks {
+						for ti := range blocks[bi].Txs {
+							for _, l := range blocks[bi].Txs[ti].Logs {
+								if len(hostile) == 0 && len(l.Topics) > 0 && bytes.Equal(l.Topics[0], sig) && len(l.Data) > 0 {
+									hb := eth.Block{Header: blocks[bi].Header}
+									hb.Header.Number += 1000 // a block of its own
+									tx := blocks[bi].Txs[ti]
+									tx.Logs = eth.Logs{eth.Log{Idx: l.Idx, Address: l.Address, Topics: l.Topics}}
+									hb.Txs = eth.Txs{tx}
+									hostile = []eth.Block{hb}
+								}
+							}
+						}
+					}
+					if len(hostile) == 1 {
+						if n, err := d.Insert(ictx, &mu, pool, hostile); err == nil && n > 0 {
+							if _, err2 := d.Insert(ictx, &mu, pool, hostile); err2 == nil {
+								verdict = fmt.Sprintf("%s accepted a log of its event without data and the re-insert of that block did not collide", ig.Name)
+							}
+						}
 					}
 				}
 				if verdict != "ok" {
